@@ -150,10 +150,13 @@ class Hamiltonian(SelfAdjointOperator, BasisManaged, EnergyUnitsManaged):
         else:
             self.remove_cutoff_coupling(coupling_cutoff)
             # diagonalize the strong coupling part
-            dd,SS = numpy.linalg.eigh(self.data)
-            self.data = numpy.zeros(self.data.shape,dtype=REAL)
-            for ii in range(0,self.data.shape[0]):
-                self.data[ii,ii] = dd[ii]
+            # we work on the storage: the data property returns the values
+            # converted to the current units as a new array, and an assignment
+            # to its elements is lost
+            dd,SS = numpy.linalg.eigh(self._data)
+            self._data = numpy.zeros(self._data.shape,dtype=REAL)
+            for ii in range(0,self._data.shape[0]):
+                self._data[ii,ii] = dd[ii]
             # transform the remainder of couling correspondingly
             self.JR = numpy.dot(SS.T,numpy.dot(self.JR,SS))
             self.SS = SS
